@@ -34,8 +34,12 @@ PROPS = {
     'C08': {'lemmas': [], 'assume': BASE + [A_PRIV, A_COUNT, A_CHAR, A_PRED, A_KANI], 'kani': ['count_ones_is_bit_sum', 'char_from_u8_is_cast', 'predicates_equal_copies'],
             'design': 'DESIGN.md section 3, C08',
             'technique': 'Verus built-in overflow / shift-range / panic-unreachable obligations on every exec function under the representation invariants'},
+    'C13': {'lemmas': ['c13'], 'cellgens': ['xlat_cells'], 'assume': BASE + [A_PRIV, A_REF_XL], 'kani': [], 'design': 'DESIGN.md section 3, C13',
+            'technique': 'Verus lemmas relating the derived denotations of the six real tables through the i8042 translation table (forward, and backward via a verified inverse map) + event-level lemma over the two automaton contracts + verified client'},
     'C14': {'lemmas': ['c14'], 'assume': BASE + [A_PRIV], 'kani': [], 'design': 'DESIGN.md section 3, C14',
             'technique': 'Verus postcondition r == decode_out(layout, mods, mode, ev) on the real process_keyevent, generic in the layout via a ghost trait member + verified clients for mode/layout changes'},
+    'C19': {'lemmas': ['c19'], 'cellgens': ['injectivity'], 'assume': BASE + [A_PRIV], 'kani': [], 'design': 'DESIGN.md section 3, C19',
+            'technique': 'Verus: injectivity of the six derived table denotations via verified inverse maps (hint from the real code, checked by Verus); make/break pairing lemmas over the automaton contracts + verified clients'},
     'C18': {'lemmas': ['c18'], 'assume': BASE + [A_PRIV, A_COUNT, A_KANI], 'kani': ['count_ones_is_bit_sum'], 'design': 'DESIGN.md section 3, C18',
             'technique': 'Verus frame postconditions on all nine Keyboard methods (generic in S, L) + verified simulation clients: Keyboard vs three separate stages'},
 }
